@@ -71,7 +71,7 @@ NUL_OPS = ["asc", "+h", "+h", "set", "+s", "+c", "sc", "sf", "ic", "pc", "ac", "
 QRY = ["at", "ioh", "ios", "ioc", "lih", "lis1", "lis", "cnh", "cns", "sws", "ews", "swh", "ewh", "swsi", "ewsi", "cmp", "cmpi",
        "eqi", "iosi", "lisi", "iohi", "lihi", "pns", "swn", "fl", "eqh", "eqhi", "swhi", "ewhi"]
 PRO = ["cp", "cpp", "sub", "suba", "subu", "wis", "wps", "was", "wih", "wph", "wah", "pad", "lo", "up", "mx", "tr", "wrc", "wrs",
-       "args", "argi", "wsf", "wpf", "wosf", "wopf", "wosh", "woph", "wons", "pls", "wsfh", "wpfh", "wosfi", "wopfi", "woshi", "wophi", "wiw", "waw", "wpw"]
+       "args", "argi", "wsf", "wpf", "wosf", "wopf", "wosh", "woph", "wons", "pls", "wsfh", "wpfh", "wosfi", "wopfi", "woshi", "wophi", "wiw", "waw", "wpw", "ind"]
 
 
 def gen_op(rng, name, ln, alias=0.2):
@@ -144,6 +144,7 @@ def gen_op(rng, name, ln, alias=0.2):
     if name in ("wsf", "wpf"): return "%s:%s" % (name, A(needle(rng))), ln
     if name == "wiw":  return "wiw:%d:%s:%s" % (idx(rng, ln), A(needle(rng) if rng.random() < 0.5 else rbytes(rng, grow)), rng.choice(["20", "20", "2c20", "", "61", "2d"])), ln
     if name in ("waw", "wpw"): return "%s:%s:%s" % (name, A(needle(rng) if rng.random() < 0.5 else rbytes(rng, grow)), rng.choice(["20", "20", "2c20", "", "61", "2d"])), ln
+    if name == "ind":  return "ind:%d:%d" % (rng.choice([0, 1, 2, 3, 8, 15, 16]), rng.choice([0x20, 0x20, 0x09, 0x2e, 0])), ln
     if name in ("wsfh", "wpfh"): return "%s:%d" % (name, rng.choice([ch(rng), ch(rng), 0])), ln
     if name in ("wosfi", "wopfi"): return "%s:%s:%d" % (name, A(needle(rng)), cnt(rng)), ln
     if name in ("woshi", "wophi"): return "%s:%d:%d" % (name, ch(rng), cnt(rng)), ln
@@ -250,6 +251,9 @@ def directed_boundary():
         for op in ("wiw:3:7879:20", "wiw:3:2078792020:20", "waw:7879:20", "wpw:7879:20", "waw:@:20", "wpw:@:2c20", "wiw:2:@:20",
                    "=wiw:%d:78797a7879:2c20" % (L // 2), "waw:7820:20", "wpw:2078:20", "wiw:1:78:", "waw::20"):
             out.append(("boundary", "c17|asc:%s;%s;fl" % (lit, op)))
+    for lit in ("", "0a", "610a620d0a0a63", "0d0a61", "61626364656667680a696a6b6c6d6e6f70", "0a0a0a", "20610a2062"):
+        for n in (1, 2, 7, 15, 16):
+            out.append(("boundary", "c17|asc:%s;ind:%d:32;=ind:%d:46;fl" % (lit, n, n)))
     # growth policy: across 32 bytes, across the geometric range, into the page-based range
     for n in (29, 30, 31, 32, 33, 63, 64, 65, 127, 128, 129):
         out.append(("boundary", "c17|asc:61;wah:98:%d;=wah:98:%d;+h:99;+h:100;sh:0;+h:101;pa:%d" % (n, n, 2 * n)))
